@@ -135,7 +135,7 @@ def fuzzy_harness(nrule, opr, shapes, mode, K):
 def builder(p):
     if p[0] == "pid":
         return "pid/" + p[1], pid_harness(p[1], p[2])
-    return "fuzzy/order%d/%s/%s/%s" % (p[1], p[2], "+".join(p[3]), p[4]), fuzzy_harness(p[1], p[2], p[3], p[4], p[5])
+    return "fuzzy/order%d/%s/%s/%s%s" % (p[1], p[2], "+".join(p[3]), p[4], "" if p[5] == 1 else "/steps%d" % p[5]), fuzzy_harness(p[1], p[2], p[3], p[4], p[5])
 
 
 def main():
@@ -154,21 +154,30 @@ def main():
     # ---- E2: exact-real domain
     K = 3 if T == "quick" else 4
     inst = [("pid", "equations", K), ("pid", "limits", 1), ("pid", "zero", K)]
+    deep = []           # thorough only, attempted with a per-instance budget; what does not finish is listed as dropped
     orders = [(2, ("tri", "tri")), (2, ("trap", "tri"))] + ([(3, ("tri", "trap", "tri"))] if T == "thorough" else [])
     for nrule, shapes in orders:
         for opr in fuzzyctl.OPRS:
             for mode in ("pos", "inc", "run"):
-                if T == "quick" and not (mode == "pos" and shapes == ("tri", "tri")) and not (opr == "cap" and shapes == ("tri", "tri")):
-                    continue
-                inst.append(("fuzzy", nrule, opr, shapes, mode, 1 if T == "quick" else 2))
+                core_inst = (mode == "pos" and shapes == ("tri", "tri")) or (opr == "cap" and shapes == ("tri", "tri"))
+                if core_inst:
+                    inst.append(("fuzzy", nrule, opr, shapes, mode, 1))
+                if T == "thorough":
+                    if not core_inst:
+                        deep.append(("fuzzy", nrule, opr, shapes, mode, 1))
+                    deep.append(("fuzzy", nrule, opr, shapes, mode, 2))
     srcs = ["pid.c", "pid_neuro.c", "pid_fuzzy.c", "mf.c", "fuzzy.c", "math.c", "a.c"]
     e2.run_e2(res, cfg, srcs, inst, builder, group="real", validate_every=5, tol=1e-6, exec_attrs={"force_solver": True}, exec_opts={"solver": "nra"},
               time_budget=400 if T == "quick" else 3000, sigmap=lambda n: "/".join(n.split("/")[:3]) if n.startswith("fuzzy") else n)
+    if deep:
+        # measured: the full thorough list (63 two-step instances with a 3000 s budget each) had not finished after 2 h 20 min
+        e2.run_e2(res, cfg, srcs, deep, builder, group="real-deep", validate_every=7, tol=1e-6, exec_attrs={"force_solver": True}, exec_opts={"solver": "nra"},
+                  time_budget=600, sigmap=lambda n: "/".join(n.split("/")[:3]) if n.startswith("fuzzy") else n, droppable=True)
     res.functions.update(["a_pid_run", "a_pid_pos", "a_pid_inc", "a_pid_run_", "a_pid_pos_", "a_pid_inc_", "a_pid_zero", "a_pid_set_kpid", "a_pid_neuro_run", "a_pid_neuro_inc",
                           "a_pid_neuro_zero", "a_pid_fuzzy_run", "a_pid_fuzzy_pos", "a_pid_fuzzy_inc", "a_pid_fuzzy_out_", "a_pid_fuzzy_mf", "a_pid_fuzzy_set_opr",
                           "a_pid_fuzzy_set_bfuzz", "a_pid_fuzzy_set_kpid", "a_fuzzy_*", "a_mf_tri", "a_mf_trap"])
     res.bounds = {"E1 (bit-precise, IEEE double and float)": "ONE step of run/pos/inc and of the single-neuron controller from an arbitrary state: every field, gain, limit and input an arbitrary finite value with |v| <= 1e30 (1e9 for float), outmin <= outmax, summin <= 0 <= summax, ki >= 0; one clause per harness",
-                  "E2 (exact reals)": "%d steps from the zero state with symbolic gains/limits/inputs (difference equations, pos = inc while no limit is active, zeroing); one step from an arbitrary real state (saturated equations, integrator clauses); fuzzy controller of order 2 (thorough: 3) over triangular/trapezoid sets with symbolic ordered parameters and consequents, all seven operators, %d step(s)" % (K, 1 if T == "quick" else 2)}
+                  "E2 (exact reals)": "%d steps from the zero state with symbolic gains/limits/inputs (difference equations, pos = inc while no limit is active, zeroing); one step from an arbitrary real state (saturated equations, integrator clauses); fuzzy controller of order 2 (thorough: 3) over triangular/trapezoid sets with symbolic ordered parameters and consequents, all seven operators, one step%s" % (K, "; thorough: every operator/mode/shape combination with one and two steps as a separate group with a 600 s budget per instance (unfinished ones are listed under dropped_from_claim)" if T == "thorough" else "")}
     res.outside = ["rule bases of order above 3, smooth membership families inside the controller (their range is C13)", "magnitudes beyond 1e30 (intermediate overflow)",
                    "bit-precise equality with the difference equations (two independent floating-point multiplier circuits do not finish in SAT; decided in the reals instead)"]
     res.stubs = ["a_fuzzy_equ inside the controller: replaced by its contract (value in [0,1], zero iff a*b == 0), which C13 proves"]
